@@ -84,8 +84,15 @@ def plan_config(rng, nmax=30000, klass=None):
     Lmin = int(min(max(1, Lmin), N))
     if not (bmin < N / 2):
         bmin = 1.0
-    return {"N": N, "fs": fs, "olap": olap, "bmin": bmin, "Lmin": Lmin, "Jdes": Jdes,
-            "Kdes": Kdes, "klass": klass}
+    cfg = {"N": N, "fs": fs, "olap": olap, "bmin": bmin, "Lmin": Lmin, "Jdes": Jdes,
+           "Kdes": Kdes, "klass": klass}
+    if rng.random() < 0.15:
+        # the same numbers in the scalar types callers hold them in
+        cfg["fs_form"] = str(rng.choice(["np.float32", "np.float64", "int"]))
+        if cfg["fs_form"] in ("np.float32", "int"):
+            cfg["fs"] = float(rng.choice([1.0, 2.0, 10.0, 1000.0, 0.5, 48000.0]))
+        cfg["N_form"] = str(rng.choice(["int", "np.int64"]))
+    return cfg
 
 
 def sched_kwargs(cfg):
